@@ -56,6 +56,8 @@ pub trait Obj: Any {
     fn sample(&self, r: &mut ScriptRng) -> Out;
     fn sample_iter(&self, r: &mut ScriptRng, k: usize) -> Vec<Out>;
     fn clone_obj(&self) -> Box<dyn Obj>;
+    /// Clone::clone_from into this (existing) value; false when `src` is of another type (the caller then uses clone_obj)
+    fn clone_from_obj(&mut self, src: &dyn Obj) -> bool;
     /// None when the type has no PartialEq
     fn eq_obj(&self, o: &dyn Obj) -> Option<bool>;
     fn dbg(&self) -> String;
@@ -70,6 +72,7 @@ where D: Distribution<T> + Clone + PartialEq + Debug + Ser + 'static, T: IntoOut
     fn sample(&self, r: &mut ScriptRng) -> Out { self.0.sample(r).into_out() }
     fn sample_iter(&self, r: &mut ScriptRng, k: usize) -> Vec<Out> { (&self.0).sample_iter(r).take(k).map(|x| x.into_out()).collect() }
     fn clone_obj(&self) -> Box<dyn Obj> { Box::new(W(self.0.clone(), std::marker::PhantomData::<T>)) }
+    fn clone_from_obj(&mut self, src: &dyn Obj) -> bool { match src.as_any().downcast_ref::<W<D, T>>() { Some(x) => { self.0.clone_from(&x.0); true } None => false } }
     fn eq_obj(&self, o: &dyn Obj) -> Option<bool> { o.as_any().downcast_ref::<W<D, T>>().map(|x| x.0 == self.0) }
     fn dbg(&self) -> String { format!("{:?}", self.0) }
     fn as_any(&self) -> &dyn Any { self }
@@ -83,6 +86,7 @@ where D: Distribution<T> + Clone + Debug + Ser + 'static, T: IntoOut + 'static {
     fn sample(&self, r: &mut ScriptRng) -> Out { self.0.sample(r).into_out() }
     fn sample_iter(&self, r: &mut ScriptRng, k: usize) -> Vec<Out> { (&self.0).sample_iter(r).take(k).map(|x| x.into_out()).collect() }
     fn clone_obj(&self) -> Box<dyn Obj> { Box::new(WN(self.0.clone(), std::marker::PhantomData::<T>)) }
+    fn clone_from_obj(&mut self, src: &dyn Obj) -> bool { match src.as_any().downcast_ref::<WN<D, T>>() { Some(x) => { self.0.clone_from(&x.0); true } None => false } }
     fn eq_obj(&self, _o: &dyn Obj) -> Option<bool> { None }
     fn dbg(&self) -> String { format!("{:?}", self.0) }
     fn as_any(&self) -> &dyn Any { self }
@@ -94,6 +98,7 @@ where D: Distribution<T> + Clone + PartialEq + Debug + 'static, T: IntoOut + 'st
     fn sample(&self, r: &mut ScriptRng) -> Out { self.0.sample(r).into_out() }
     fn sample_iter(&self, r: &mut ScriptRng, k: usize) -> Vec<Out> { (&self.0).sample_iter(r).take(k).map(|x| x.into_out()).collect() }
     fn clone_obj(&self) -> Box<dyn Obj> { Box::new(WX(self.0.clone(), std::marker::PhantomData::<T>)) }
+    fn clone_from_obj(&mut self, src: &dyn Obj) -> bool { match src.as_any().downcast_ref::<WX<D, T>>() { Some(x) => { self.0.clone_from(&x.0); true } None => false } }
     fn eq_obj(&self, o: &dyn Obj) -> Option<bool> { o.as_any().downcast_ref::<WX<D, T>>().map(|x| x.0 == self.0) }
     fn dbg(&self) -> String { format!("{:?}", self.0) }
     fn as_any(&self) -> &dyn Any { self }
@@ -120,6 +125,7 @@ impl<Wt: crate::tw::TW + Ser> Obj for WTree<Wt> where WeightedTreeIndex<Wt>: Ser
     fn sample(&self, r: &mut ScriptRng) -> Out { self.0.sample(r).into_out() }
     fn sample_iter(&self, r: &mut ScriptRng, k: usize) -> Vec<Out> { (&self.0).sample_iter(r).take(k).map(|x| x.into_out()).collect() }
     fn clone_obj(&self) -> Box<dyn Obj> { Box::new(WTree(self.0.clone())) }
+    fn clone_from_obj(&mut self, src: &dyn Obj) -> bool { match src.as_any().downcast_ref::<WTree<Wt>>() { Some(x) => { self.0.clone_from(&x.0); true } None => false } }
     fn eq_obj(&self, o: &dyn Obj) -> Option<bool> { o.as_any().downcast_ref::<WTree<Wt>>().map(|x| x.0 == self.0) }
     fn dbg(&self) -> String { format!("{:?}", self.0) }
     fn as_any(&self) -> &dyn Any { self }
@@ -136,6 +142,7 @@ impl Obj for $WD {
     // sample_to_slice into ONE re-used buffer that starts out dirty: the result must not depend on its previous contents
     fn sample_iter(&self, r: &mut ScriptRng, k: usize) -> Vec<Out> { let mut v = vec![0.625 as $f; self.0.sample_len()]; (0..k).map(|_| { self.0.sample_to_slice(r, &mut v); v.clone().into_out() }).collect() }
     fn clone_obj(&self) -> Box<dyn Obj> { Box::new($WD(self.0.clone())) }
+    fn clone_from_obj(&mut self, src: &dyn Obj) -> bool { match src.as_any().downcast_ref::<$WD>() { Some(x) => { self.0.clone_from(&x.0); true } None => false } }
     fn eq_obj(&self, o: &dyn Obj) -> Option<bool> { o.as_any().downcast_ref::<$WD>().map(|x| x.0 == self.0) }
     fn dbg(&self) -> String { format!("{:?}", self.0) }
     fn as_any(&self) -> &dyn Any { self }
